@@ -144,7 +144,7 @@ func executeSlow(ctx context.Context, res *worker.Result, c *copymon.Case, fault
 	if out.Hung {
 		w := witness()
 		w["goroutines"] = out.Dump
-		res.Violate("hang:"+tag, "call did not return: no progress, nothing in flight, every library goroutine parked", w)
+		res.Violate("hang:"+tag, "call did not return: no progress, nothing in flight (apart from reads that wait for their context to end), every library goroutine parked", w)
 		return true
 	}
 	if out.Stuck {
@@ -157,7 +157,15 @@ func executeSlow(ctx context.Context, res *worker.Result, c *copymon.Case, fault
 		res.Violate("goroutine-leak:"+tag, fmt.Sprintf("%d library goroutines still alive after the call returned", len(out.Leaked)), w)
 		return true
 	}
+	if out.StallReleased {
+		res.Count("stalled_reads_released_because_nothing_failed", 1)
+	}
 	hits := e.Mon.HitFaults()
+	for _, f := range hits {
+		if f.Kind == "stall" && !out.StallReleased {
+			res.Count("stalled_reads_ended_by_the_failure_of_another_node", 1)
+		}
+	}
 	if len(hits) == 0 {
 		res.Count("fault_not_reached", 1)
 	} else {
@@ -390,6 +398,43 @@ func runCase(phase string, i int) worker.Result {
 		}
 		kind := []string{"error", "error", "cancel", "cancel-silent"}[rng.IntN(4)]
 		faults = append(faults, faultSpec{fmt.Sprintf("%s:%d#%d", op, n, ord), kind})
+	}
+	if rng.IntN(4) == 0 {
+		// a read of a manifest from a silent peer (it ends only when its context does) while
+		// another node fails: the failure must reach the pending read
+		var mans, others []int
+		for _, x := range nodes {
+			if c.G.Nodes[x].Kind.IsManifestKind() {
+				mans = append(mans, x)
+			}
+		}
+		if len(mans) > 0 {
+			y := mans[rng.IntN(len(mans))]
+			// the failing node is processed while the read is pending only if it lies in another
+			// branch: neither below nor above the stalled manifest
+			rel := map[int]bool{}
+			for _, x := range c.G.Reach(y) {
+				rel[x] = true
+			}
+			for _, x := range nodes {
+				for _, z := range c.G.Reach(x) {
+					if z == y {
+						rel[x] = true
+					}
+				}
+			}
+			for _, x := range nodes {
+				if !rel[x] {
+					others = append(others, x)
+				}
+			}
+			if len(others) > 0 && c.Conc != 1 {
+				x := others[rng.IntN(len(others))]
+				op := []string{"dst.Exists", "dst.Exists", "src.Fetch", "cb.PreCopy"}[rng.IntN(4)]
+				faults = append(faults, faultSpec{fmt.Sprintf("src.Fetch:%d#0", y), "stall"}, faultSpec{fmt.Sprintf("%s:%d#0", op, x), "error"})
+				res.Count("cases_with_stalled_manifest_read", 1)
+			}
+		}
 	}
 	res.Restart = execute(ctx, &res, c, faults, "multi")
 	res.Evals = 1
